@@ -13,8 +13,9 @@ THEOREMS = [
     "C01_shift",
     "C01_tail_bounds",
     "C01_tied_components_both_count",
+    "C01_component_order_irrelevant",
 ]
-CORR_OPS = ["gmm_ll:lwl", "gmm_ll:ll", "gmm_ll:single", "gmm_ll:dask", "gmm_ll:acc_stats"]
+CORR_OPS = ["gmm_ll:lwl", "gmm_ll:ll", "gmm_ll:single", "gmm_ll:dask", "gmm_ll:acc_stats", "gmm_ll:relabel"]
 RULE = ("machines with C components x D features (mixed feature scales 1e-3/1/1e3, some variances below their floor), "
         "rows from the bulk and 10..5000 sigma from every mean; distinct = hash of (C,D,params,rows); "
         "non-trivial = at least 2 components or a tail row")
@@ -110,6 +111,21 @@ def impl_all(sc):
     sizes = sc["sizes"]
     out["dask"] = core.impl(lambda: np.asarray(g.log_likelihood(da.from_array(x, chunks=(sizes, x.shape[1]))).compute() if True else None))
     out["acc"] = core.impl(lambda: float(g.acc_stats(x).log_likelihood))
+
+    # C01_component_order_irrelevant on the code: the same mixture with its components numbered in reverse order
+    def relabelled():
+        idx = np.arange(len(sc["w"]))[::-1]
+        thr = sc["thr"]
+        if thr is not None and np.ndim(thr) == 2 and np.shape(thr)[0] == len(idx):
+            thr = np.asarray(thr)[idx]
+        g2 = gen.mk_gmm(np.asarray(sc["w"])[idx], np.asarray(sc["m"])[idx], np.asarray(sc["v"])[idx], thr=thr, order=sc.get("order", "thr_first"))
+        if sc.get("int_means"):
+            g2.means = np.rint(np.asarray(sc["m"])[idx]).astype(np.int64)
+        st, st2 = g.acc_stats(x), g2.acc_stats(x)
+        return {"ll": np.asarray(g2.log_likelihood(x)), "lwl": np.asarray(g2.log_weighted_likelihood(x))[idx],  # idx is its own inverse
+                "n": (np.asarray(st.n, float), np.asarray(st2.n, float)[idx]), "px": (np.asarray(st.sum_px, float), np.asarray(st2.sum_px, float)[idx])}
+
+    out["relabel"] = core.impl(relabelled)
     return out
 
 
@@ -137,6 +153,13 @@ def correspondence(ctx):
         mlwl, mll = core.dec(o["lwl"]), core.dec(o["ll"])
         cmp = [("gmm_ll:lwl", mlwl, im["lwl"]), ("gmm_ll:ll", mll, im["ll"]), ("gmm_ll:single", mll, im["single"]),
                ("gmm_ll:dask", mll, im["dask"]), ("gmm_ll:acc_stats", float(np.sum(mll)), im["acc"])]
+        rl = im["relabel"]
+        if isinstance(rl, core.ImplError) or isinstance(im["ll"], core.ImplError) or isinstance(im["lwl"], core.ImplError) \
+                or not (core.close(im["ll"], rl["ll"]) and core.close(im["lwl"], rl["lwl"]) and core.close(rl["n"][0], rl["n"][1], 1e-7, 1e-9)
+                        and core.close(rl["px"][0], rl["px"][1], 1e-7, 1e-9 * (1 + float(np.max(np.abs(rl["px"][0])))))):
+            if not (isinstance(im["ll"], core.ImplError) or isinstance(im["lwl"], core.ImplError)):
+                bad.append({"op": "gmm_ll:relabel", "input": {k: sc[k] for k in ("C", "D", "w", "m", "v", "thr", "x", "sizes", "order", "int_means") if k in sc},
+                            "impl": repr(rl) if isinstance(rl, core.ImplError) else {"ll": im["ll"], "relabelled": rl}})
         for op, a, b in cmp:
             if isinstance(b, core.ImplError) or not core.close(a, b):
                 bad.append({"op": op, "input": {k: sc[k] for k in ("C", "D", "w", "m", "v", "thr", "x", "sizes", "order", "int_means") if k in sc},
